@@ -28,7 +28,7 @@ PRESETS = ["0", "1", "2", "max-1", "max"]
 
 
 def corpus(chk):
-    return gen.corpus(id)
+    return [(n, s_) for n, s_ in gen.corpus(id) if s_ and s_[0].startswith("r ")]
 
 
 def _ops(nobj, nh, kinds_ext):
@@ -61,6 +61,9 @@ def scripts(tier, seed, scale=1):
     # exhaustive histories per kind
     for kind in ("meta", "buf"):
         pairs = [(a, "1") for a in PRESETS] + [("max", "max"), ("1", "max")]
+        if tier == "quick" and kind == "buf":
+            # the array handle paths differ from the pointer paths only in mpt_array_clone: fewer presets in the quick tier
+            pairs = [("1", "1"), ("0", "1"), ("max", "1"), ("1", "max")]
         for p0, p1 in pairs:
             if True:
                 head = ["r begin", "r obj %s %s" % (kind, p0), "r obj %s %s" % (kind, p1)]
@@ -69,6 +72,12 @@ def scripts(tier, seed, scale=1):
                 d = depth if (tier == "quick" or (p0, p1) == ("1", "1")) else 3
                 for hist in itertools.product(ops, repeat=d):
                     out.append(("ex:%s:%s/%s:%s" % (kind, p0, p1, "|".join(x[2:] for x in hist)), head + list(hist) + ["r end"]))
+    # the stream input reference traits (mptio/input_traits.c) on the metatype objects
+    for p0, p1 in [(a, "1") for a in PRESETS] + [("max", "max"), ("0", "0")]:
+        head = ["r begin", "r traits input", "r obj meta %s" % p0, "r obj meta %s" % p1]
+        ops = [x for x in _ops(2, 2, [True, True]) if x.split()[1] in ("take", "copy", "drop", "ext")]
+        for hist in itertools.product(ops, repeat=3):
+            out.append(("ex:input:%s/%s:%s" % (p0, p1, "|".join(x[2:] for x in hist)), head + list(hist) + ["r end"]))
     if tier != "quick":
         for kind in ("meta", "buf"):
             for p0 in PRESETS:
@@ -95,6 +104,8 @@ def scripts(tier, seed, scale=1):
         lines = ["r begin"]
         kinds = []
         meta_side = r.random() < 0.5
+        if meta_side and r.random() < 0.4:
+            lines.append("r traits input")
         for _ in range(r.choice([1, 2, 3, 3])):
             kd = r.choice(["meta", "meta", "raw"]) if meta_side else r.choice(["buf", "buf", "rbuf"])
             if r.random() < 0.15:
@@ -114,6 +125,117 @@ def scripts(tier, seed, scale=1):
         lines.append("r end")
         out.append(("rnd:%d" % k, lines))
     return out
+
+
+def _xops(nobj, nh):
+    ops = []
+    for h in range(nh):
+        ops += ["x drop %d" % h, "x detach %d" % h, "x next %d" % h]
+        for g in range(nh):
+            if g != h:
+                ops.append("x copy %d %d" % (h, g))
+            ops += ["x assign %d %d" % (h, g), "x move %d %d" % (h, g)]
+    for o in range(nobj):
+        ops.append("x ext %d unref" % o)
+        for g in range(nh):
+            ops.append("x setnext %d %d" % (o, g))
+    return ops
+
+
+class _XX:
+    """second part: the C++ handle class mpt::reference<T> (mptcore/core.h, mpt++/refcount_wrap.cpp) through
+    harness/drvxx_refcount.cpp: reference-counted nodes that own a handle to another node (chains)"""
+    id = "C15"
+    area = "refcount"
+    driver = "drvxx_refcount"
+    cxx = True
+    fixed_lines = 1
+    link_extra = ["-fno-sanitize=vptr"]
+
+    @staticmethod
+    def corpus(chk):
+        return [(n, s_) for n, s_ in gen.corpus(id) if s_ and s_[0].startswith("x ")]
+
+    @staticmethod
+    def scripts(tier, seed, scale=1):
+        out = []
+        depth = 3 if tier == "quick" else 4
+        for c0 in (["1", "max"] if tier == "quick" else ["1", "2", "3", "max-1", "max"]):
+            head = ["x begin", "x new 0 %s" % c0, "x new 1 1"]
+            for hist in itertools.product(_xops(2, 2), repeat=depth if c0 == "1" else 3):
+                out.append(("xx:%s:%s" % (c0, "|".join(x[2:] for x in hist)), head + list(hist) + ["x end"]))
+        head = ["x begin", "x new 0 1", "x new 1 1", "x new 2 1"]
+        for hist in itertools.product(_xops(3, 3), repeat=2):
+            out.append(("xx3:%s" % "|".join(x[2:] for x in hist), head + list(hist) + ["x end"]))
+        # chains: 0 -> 1 -> 2 held only through the first handle, then walked
+        chain = head + ["x setnext 1 2", "x setnext 0 1", "x drop 1", "x drop 2"]
+        for hist in itertools.product(["x next 0", "x assign 1 0", "x copy 2 0", "x move 1 0", "x drop 0", "x next 1", "x setnext 2 0",
+                                       "x setnext 0 0", "x detach 0", "x ext 0 unref"], repeat=3):
+            out.append(("xchain:%s" % "|".join(x[2:] for x in hist), chain + list(hist) + ["x end"]))
+        r = gen.rng(id, tier, seed, "xx-random")
+        for k in range((300 if tier == "quick" else 4000) * scale):
+            lines = ["x begin"]
+            n = r.choice([1, 2, 3, 3])
+            for i in range(n):
+                lines.append("x new %d %s" % (i, r.choice(["1", "1", "1", "2", "3", "max-1", "max"])))
+            ops = _xops(n, 3)
+            for _ in range(r.choice([4, 8, 16, 30])):
+                lines.append(r.choice(ops))
+            lines.append("x end")
+            out.append(("xxrnd:%d" % k, lines))
+        return out
+
+    nontrivial = staticmethod(lambda script, c_lines: nontrivial(script, c_lines))
+    tally = staticmethod(lambda chk, script, c_lines: tally(chk, script, c_lines))
+    finding_key = staticmethod(lambda script, res: finding_key(script, res))
+
+
+class _KK:
+    """third part: deferrable reply contexts (mptcore/event/reply_deferrable.c) through harness/drv_refctx.c;
+    destruction is seen through a wrapped free(), allocation failure is injected through a wrapped malloc()"""
+    id = "C15"
+    area = "refcount"
+    driver = "drv_refctx"
+    cxx = False
+    fixed_lines = 1
+    link_extra = ("-Wl,--wrap=malloc", "-Wl,--wrap=free")
+
+    @staticmethod
+    def corpus(chk):
+        return [(n, s_) for n, s_ in gen.corpus(id) if s_ and s_[0].startswith("k ")]
+
+    @staticmethod
+    def scripts(tier, seed, scale=1):
+        out = []
+        ops = ["k arm 0", "k addref 0", "k unref 0"]
+        for h in range(2):
+            ops += ["k defer %d 0" % h, "k defer %d 0 nomem" % h, "k release %d" % h]
+        for hist in itertools.product(ops, repeat=4 if tier == "quick" else 5):
+            out.append(("kk:%s" % "|".join(x[2:] for x in hist), ["k begin", "k new"] + list(hist) + ["k end"]))
+        r = gen.rng(id, tier, seed, "kk-random")
+        ops2 = []
+        for o in range(2):
+            ops2 += ["k arm %d" % o, "k addref %d" % o, "k unref %d" % o]
+            for h in range(3):
+                ops2 += ["k defer %d %d" % (h, o), "k defer %d %d nomem" % (h, o)]
+        ops2 += ["k release %d" % h for h in range(3)] * 2
+        for k in range((300 if tier == "quick" else 4000) * scale):
+            lines = ["k begin", "k new"] + (["k new"] if r.random() < 0.5 else [])
+            for _ in range(r.choice([4, 8, 16, 30])):
+                lines.append(r.choice(ops2))
+            lines.append("k end")
+            out.append(("kkrnd:%d" % k, lines))
+        return out
+
+    @staticmethod
+    def nontrivial(script, c_lines):
+        return any(":freed" in ln or ln.startswith("R refused") for ln in c_lines)
+
+    tally = staticmethod(lambda chk, script, c_lines: tally(chk, script, c_lines))
+    finding_key = staticmethod(lambda script, res: finding_key(script, res))
+
+
+extra_parts = [_XX, _KK]
 
 
 def nontrivial(script, c_lines):
